@@ -68,22 +68,22 @@ def generate(seed):
     return Generator(language=_STATE["lang"], options={}).generate()
 
 
-def erase(program, seed=None):
-    """TypeErasure on a deep copy; returns (new program, transformer)."""
+def erase(program, seed=None, inplace=False):
+    """TypeErasure on a deep copy (or, as the driver does, on the object itself); returns (new program, transformer)."""
     from src.transformations.type_erasure import TypeErasure
     if seed is not None:
         _STATE["utils"].random.r.seed(seed)
-    p = copy.deepcopy(program)
+    p = program if inplace else copy.deepcopy(program)
     t = TypeErasure(p, _STATE["lang"], None, {})
     t.transform()
     return t.result(), t
 
 
-def overwrite(program, seed=None):
+def overwrite(program, seed=None, inplace=False):
     from src.transformations.type_overwriting import TypeOverwriting
     if seed is not None:
         _STATE["utils"].random.r.seed(seed)
-    p = copy.deepcopy(program)
+    p = program if inplace else copy.deepcopy(program)
     t = TypeOverwriting(p, _STATE["lang"], None, {})
     t.transform()
     return t.result(), t
